@@ -285,14 +285,20 @@ Proof.
   split; [exact H1|]. rewrite presences_bytes_length by lia. exact H3.
 Qed.
 
-Theorem wire_requests_bounded :
-  forall mm cids, 2 <= mm -> mm < 2 ^ 64 ->
-    Forall (fun batch => blen (request_bytes batch) <= mm) (send_request_msgs mm cids).
+(* a request is one message; whatever of it reaches the wire is the whole message, and then its
+   bytes are within the limit (the codec refuses a longer one before writing anything) *)
+Theorem wire_request_written_bounded :
+  forall mm c cids done part c' ok, mm < 2 ^ 64 ->
+    write_msgs mm c [ORequest cids] = (done, part, c', ok) ->
+    done = [] \/ (done = [ORequest cids] /\ blen (request_bytes cids) <= mm).
 Proof.
-  intros mm cids H2 Hmm. pose proof (request_bounds mm cids) as H.
-  eapply Forall_impl; [|exact H]. cbn beta. intros batch Hb.
-  destruct batch as [|x batch]; [change (blen (request_bytes [])) with 2; exact H2|].
-  specialize (Hb ltac:(discriminate)). rewrite request_bytes_length by lia. exact Hb.
+  intros mm c cids done part c' ok Hmm H. cbn [write_msgs omsg_len] in H.
+  destruct (mm <? request_len cids) eqn:E; [inversion H; left; reflexivity|].
+  apply N.ltb_ge in E.
+  assert (Hb : blen (request_bytes cids) <= mm) by (rewrite request_bytes_length by lia; exact E).
+  destruct c as [b|].
+  - destruct (frame_len (ORequest cids) <=? b); inversion H; [right; split; [reflexivity|exact Hb]|left; reflexivity].
+  - inversion H. right. split; [reflexivity|exact Hb].
 Qed.
 
 (* what is written parses back, token by token, to the fields it was built from *)
